@@ -21,6 +21,11 @@ TECHNIQUE = "static analysis: ordered effect script of the dispatch arm vs oracl
 
 
 def run(ctx):
+    _run_main(ctx)
+    _shared_r4(ctx)
+
+
+def _run_main(ctx):
     m, arms, _ = D.read(ctx)
     with ctx.rule('R09.1', 'Channel.Close arm: slot n removed and notified, CloseOk on n, nothing else touched', floor=4) as r:
         a = A.check_script(ctx, r, arms, ('Method', 'n', 'channel', 'Close'))
@@ -65,3 +70,27 @@ def run(ctx):
 
     with ctx.rule('R09.4', 'the closed id becomes available again', floor=1) as r:
         c10.reuse(ctx, r)
+
+
+def _shared_r4(ctx):
+    """Rules of other properties that are necessary conditions of this one too (found by seeding round 4)."""
+    with ctx.rule('R09.8', "a reply still unread does not turn the server's Channel.Close into an error: reply queue of two per slot (shared with C05)", floor=1) as r:
+        A.include(ctx, r, 'c05', 'R05.3', pick=('slot/handle-pairing',))
+    with ctx.rule('R09.9', "the Channel.Close arm is reached whatever else channel n was doing: nothing but the connection state and the frame itself decides", floor=2) as r:
+        import paths as P
+        fnp = 'io_loop::connection_state::ConnectionState::process'
+        rows = P.table(ctx, fnp, ['self', 'inner', 'frame'])
+        CLOSE = 'amq_protocol::frame::AMQPFrame::Method(_, amq_protocol::protocol::AMQPClass::Channel(amq_protocol::protocol::channel::AMQPMethod::Close(_)))'
+        mine = [x for x in rows if any(pred == CLOSE for subj, pred in x.conds if isinstance(pred, str))]
+        r.check('close-arm:rows', len(mine) >= 1, ctx.site(fnp), built=len(mine))
+        pre = []
+        ok0 = True
+        for x in mine:
+            cs = list(x.conds)
+            k = [j for j, c in enumerate(cs) if c == ('frame', CLOSE)][0]
+            ok0 = ok0 and cs[0] == ('self', 'io_loop::connection_state::ConnectionState::Steady(_)')
+            # what is tested between the state gate and the dispatch; a test of the frame that Channel.Close passes anyway says nothing
+            pre.append([c for c in cs[1:k] if not (c[0] == 'frame' and isinstance(c[1], str) and CLOSE.startswith(c[1].split('(')[0] + '('))])
+        r.check('close-arm:precondition', ok0 and A.covers_all(pre), ctx.site(fnp), built=[x.cond_strs() for x in mine],
+                expected='reached for every Channel.Close frame in state Steady: the paths into the arm cover every case of whatever else is tested before it',
+                why="a half-received content, an unread reply or any other per-channel circumstance must not turn the server's Channel.Close into a connection error")
